@@ -58,6 +58,7 @@ class Worker:
         self.stderr_path = stderr_path or os.path.join(BUILD, 'tmp', 'stderr.%d' % os.getpid())
         os.makedirs(os.path.dirname(self.stderr_path), exist_ok=True)
         self.p = None
+        self.on_restart = None      # callback(worker) to reload state (documents) after a restart before a retry
         self.start()
 
     def start(self):
@@ -120,7 +121,23 @@ class Worker:
         return line + b'\n'
 
     def request(self, *fields):
-        """Send one request; returns list of unescaped response fields."""
+        """Send one request; returns list of unescaped response fields. A request that times out is re-run alone
+        in a fresh driver with a 10x limit before it is reported as a hang (a loaded machine is not a verdict)."""
+        try:
+            return self._request(fields)
+        except WorkerDied as wd:
+            if wd.rc != 'timeout':
+                raise
+            saved = self.timeout
+            self.timeout = saved * 10
+            try:
+                if self.on_restart:
+                    self.on_restart(self)
+                return self._request(fields)
+            finally:
+                self.timeout = saved
+
+    def _request(self, fields):
         line = '\t'.join(esc(f) for f in fields) + '\n'
         try:
             self.p.stdin.write(line.encode('utf-8', 'surrogateescape'))
